@@ -176,6 +176,39 @@ def check_hier(case, rec):
             raise Violation("hier-mutates-input", "table changed")
 
 
+def check_hier_large(case, rec):
+    n = case["n"]
+    pool = case["pool"]
+    items = [pool[(i * 11 + i // 5) % len(pool)] for i in range(n)]
+    memo = {}
+
+    def d(a, b):
+        key = (a, b) if a <= b else (b, a)
+        if key not in memo:
+            memo[key] = O.lev(a, b)
+        return memo[key]
+    v = np.array([d(items[i], items[j]) for i in range(n) for j in range(i + 1, n)], dtype=float)
+    rec.note(case, True, [f"n={n}"])
+    lk, ck = dict(method=case["method"], optimal_ordering=False), dict(t=case["t"], criterion="distance")
+    Z, cl = call("hierarchical_clustering", pyrepseq.hierarchical_clustering, list(items), linkage_kws=dict(lk), cluster_kws=dict(ck))
+    Zw = hc.linkage(v, **lk)
+    if not np.array_equal(np.asarray(Z), Zw):
+        raise Violation("hier-linkage", f"n={n}: linkage differs from SciPy on the true distances")
+    if not np.array_equal(np.asarray(cl), hc.fcluster(Zw, **ck)):
+        raise Violation("hier-clusters", f"n={n}: clusters differ from SciPy")
+    if case["method"] == "single" and float(case["t"]) == int(case["t"]):
+        nb = call("nearest_neighbor", pyrepseq.nearest_neighbor, list(items), max_edits=int(case["t"]))
+        if O.partition_of(list(cl)) != O.components(n, [(a, b) for a, b, _ in nb]):
+            raise Violation("single-linkage-vs-neighbour-graph", f"n={n} t={case['t']}: partition differs from the components of the neighbour graph")
+
+
+def enum_hier_large(tier):
+    pool = ["CASSL", "CASSLG", "CASRL", "CAWSL", "WWYY", "WWYA", "WYY", "CSARD", "CSARDR", "AAAAAAAA", "AAAAAAA", "GGGG"]
+    for n in ([255, 257, 511, 513, 1025] if tier == "quick" else [255, 257, 511, 512, 513, 1023, 1025, 2049]):
+        yield {"n": n, "pool": pool, "method": "single", "t": 1}
+        yield {"n": n, "pool": pool, "method": "average", "t": 2.5}
+
+
 @st.composite
 def graph_case(draw, tier="quick"):
     alpha = draw(st.sampled_from(["ACD", G.AA, G.AA]))
@@ -231,5 +264,6 @@ def hier_case(draw, tier="quick"):
 
 SUBS = [
     Sub("graph", check_graph, strategy=lambda t: graph_case(t), budget=(2500, 25000)),
+    Sub("hierarchical_large", check_hier_large, enum=enum_hier_large),
     Sub("hierarchical", check_hier, strategy=lambda t: hier_case(t), budget=(2000, 20000)),
 ]
